@@ -3041,6 +3041,17 @@ package goatlang
 // resolves to the global slot interned under the *export-prefixed* key: the same key under which
 // the declaration cases (function, :=, var, type) intern it, whether or not it has been seen yet.
 // ---------------------------------------------------------------------------------------------
+//@ -- whether a call is a builtin (len, append, delete, copy, panic, ...) is decided by its name
+//@ -- alone, never by what happens to be interned already: the callee name of a builtin call is
+//@ -- not compiled as an expression, in any declaration order
+//@ func (*token).Int
+//@   property C16
+//@   trusted
+//@ func (*compiler).compile case "call"
+//@   property C16 C09
+//@   axioms TOKARR
+//@   requires wfC(c) && tok != nil && len(tok.Tokens) >= 3 && tokArr(arr(tok.Tokens)) && (forall j int :: 0 <= j && j < len(tok.Tokens) ==> tok.Tokens[j] != nil)
+//@   callsite#builtinwins (*compiler).compile: builtinMap[tok.Tokens[0].Text] == 0
 //@ -- a string constant lives in the globals slot keyed by the literal's source text (two spellings
 //@ -- of different byte sequences never share a slot)
 //@ func (*lookup).Set
